@@ -151,3 +151,5 @@ func confBatch(t testing.TB, r *rand.Rand, nTx int) *fat2.TransactionBatch {
 	}
 	return b
 }
+
+func newConfRand(seed int64) *rand.Rand { return rand.New(rand.NewSource(seed)) }
